@@ -157,8 +157,8 @@ func plain(ls []Label) bool {
 
 // Names of the label universe that stand for strings TLC's output does not carry well: "xuml" is a name with a
 // non-ASCII letter (case folding is not only about A-Z).
-var realNames = map[string]string{"xuml": "m\u00fc"}
-var symNames = map[string]string{"m\u00fc": "xuml"}
+var realNames = map[string]string{"xuml": "\u00fc\u00e9"} // (no ASCII letter in either case)
+var symNames = map[string]string{"\u00fc\u00e9": "xuml"}
 
 func realName(n string) string {
 	if r, ok := realNames[n]; ok {
@@ -464,7 +464,8 @@ func apiArg(l Label, v interface{}, variant int) am.Arg {
 	l.Name = realName(l.Name)
 	// value names are matched case-insensitively: spell the name in another case now and then
 	if l.Name != "" && variant >= 3 {
-		l.Name = strings.ToUpper(l.Name[:1]) + l.Name[1:]
+		rs := []rune(l.Name)
+		l.Name = strings.ToUpper(string(rs[:1])) + string(rs[1:])
 		if variant == 5 {
 			l.Name = strings.ToUpper(l.Name)
 		}
